@@ -507,7 +507,7 @@ int main(int argc, char **argv)
         }
     }
     // ---- part B: all server sequences up to depth D
-    const int depth = ctx.opts.value(QStringLiteral("depth"), ctx.thorough() ? QStringLiteral("4") : QStringLiteral("3")).toInt();
+    const int depth = ctx.opts.value(QStringLiteral("depth"), ctx.thorough() ? QStringLiteral("5") : QStringLiteral("3")).toInt();
     std::vector<int> seq;
     std::function<void()> rec = [&]() {
         if (!seq.empty()) {
